@@ -362,13 +362,15 @@ _c16 += [
     H("c16_support_new_m2", 900, "quick", "ExpRestricted01::new(ln 2) built by the real constructor, then sample: every return in [0,1)", "lambda = ln 2; one loop iteration", stubs=_TB, extra=_NU1, iso="exp01_new", native_confirm=_c16_confirm),
     H("c16_support_new_m3", 900, "thorough", "same, lambda = ln(3/2)", "one loop iteration", stubs=_TB, extra=_NU1, iso="exp01_new", native_confirm=_c16_confirm),
     H("c16_support_new_m5", 900, "thorough", "same, lambda = ln(5/4)", "one loop iteration", stubs=_TB, extra=_NU1, iso="exp01_new", native_confirm=_c16_confirm),
+    H("c16_support_new_anyc1", 1500, "quick", "ExpRestricted01::new(1.0) by the real constructor with exp_m1(1) replaced by an arbitrary v in [1, 1e6] (c1 symbolic, everything new() derives from it computed by the real code), then sample: every return in [0,1)", "lambda = 1, c1 in [1, 1e6] symbolic; one loop iteration",
+      stubs=["f64::exp_m1(1.0) -> arbitrary v in [1, 1e6], arbitrary elsewhere; f64::exp -> arbitrary value in (0,1]; f64::ln -> arbitrary non-NaN value"], extra=_NU1, iso="exp01_new", native_confirm=_c16_confirm),
 ]
 SPECS["C16"] = dict(
     level="model_checking", harnesses=_c16,
-    functions=["exp01::ExpRestricted01::{new, sample}", "rand::distr::Uniform<f64>::sample"],
-    bounds={"quick": "constants symbolic (ranges above) and the lambda = ln 2 instance; one iteration of the rejection loop", "thorough": "plus lambda = ln(3/2), ln(5/4)"},
+    functions=["exp01::ExpRestricted01::{new, sample}", "rand::distr::Uniform<f64>::{new, sample}"],
+    bounds={"quick": "constants symbolic (ranges above), the lambda = ln 2 instance (literal and real constructor) and the real constructor at lambda = 1 with c1 symbolic in [1, 1e6]; one iteration of the rejection loop", "thorough": "plus lambda = ln(3/2), ln(5/4)"},
     outside="the LAW of the samples ((1-exp(-lambda x))/(1-exp(-lambda)) is an area under exp: a measure, not decidable by a solver) - NOT decided; further iterations of the rejection loop (it is state-free: an iteration starts from the same state with fresh draws, so one iteration covers all)",
-    assumptions=["generator = oracle (any u64 per draw)", "exp_m1 havocked", "constants within the ranges that new(lambda) yields mathematically (new itself uses exp/ln/exp_m1 and is not encoded)"],
+    assumptions=["generator = oracle (any u64 per draw)", "exp_m1 havocked", "literal-sampler instances: constants within the ranges that new(lambda) yields mathematically", "constructor instances (c16_support_new_*): the real new(lambda) is encoded with exp_m1/exp/ln replaced by tables of libm values (lambda = ln 2, ln 3/2, ln 5/4) or by arbitrary values (lambda = 1: exp_m1(1) in [1, 1e6]); they run in a scratch copy with only harness/exp01_new.rs mounted; their counterexamples are confirmed natively with the real libm (native/c16) before being reported"],
     not_decided=["the samples follow the truncated exponential law (distributional clause)"],
     level_text="Bounded model checking of the support clause only: for every generator output and every admissible constant triple, each return of ExpRestricted01::sample is in [0,1); all three acceptance paths are shown reachable.",
     level_note="Trusted: Kani/CBMC, oracle RNG model. The distributional clause of C16 is not decided. Rejection loop cut after one iteration (--no-unwinding-checks), justified by the loop being state-free.",
